@@ -246,18 +246,23 @@ def get_model(
             logger.error(msg, assoc.name)
             raise LookupError(msg % assoc.name)
 
+        # Every link is returned twice by the query, once from each end.
+        # Check for the link in the orientation of the association, a link
+        # in the opposite direction between two assets of the same type is
+        # a different link.
+        if assoc.left_field.fieldname == left_field:
+            first_asset, second_asset = left_asset, right_asset
+        else:
+            first_asset, second_asset = right_asset, left_asset
+
         assoc = getattr(lang_classes_factory.ns, assoc_name)()
         setattr(assoc, left_field, [left_asset])
         setattr(assoc, right_field, [right_asset])
-        if not (instance_model.association_exists_between_assets(
+        if not instance_model.association_exists_between_assets(
             assoc_name,
-            left_asset,
-            right_asset
-        ) or instance_model.association_exists_between_assets(
-            assoc_name,
-            right_asset,
-            left_asset
-        )):
+            first_asset,
+            second_asset
+        ):
             instance_model.add_association(assoc)
 
     return instance_model
